@@ -226,8 +226,15 @@ def flag_configs(tier: str, impls=("casadi",)) -> list:
     else:
         combos = [frozenset()] + [frozenset([f]) for f in FLAGS] + [frozenset(FLAGS)]
     out = []
+    allf = frozenset(FLAGS)
     for impl in impls:
         for b in base:
             for c in combos:
                 out.append(replace(b, flags=c, impl=impl))
+            # the same objects stepped before with other options / another engine argument
+            out.append(replace(b, flags=frozenset(), impl=impl, history=((allf, "explicit"),)))
+            out.append(replace(b, flags=allf, impl=impl, history=((frozenset(), "current"),)))
+            out.append(replace(b, flags=frozenset(["positive_init_speed", "positive_next_queue"]), impl=impl,
+                               history=((frozenset(["positive_init_queue", "positive_init_density"]), "current"),
+                                        (allf, "explicit"))))
     return out
